@@ -40,7 +40,8 @@ hdr = [summary, '', 'Independent sub-agents were given only the text of one prop
        'compile, and pass the 805 existing tests, with a demonstration program. Every change below was confirmed in a scratch worktree (demonstration passes on the',
        'unchanged headers, fails with the change; the existing suite passes with the change) by `tools/confirm_seed.py` and is kept under `seeded/<id>/`.',
        '"first run" = which quick checks reported a violation when the change was first tried; "final" = after the strengthening described in the last column',
-       '(`tools/rerun_seeded.py`, whose minimal tapes are committed under `corpus/regress/`).', '',
+       '(`tools/rerun_seeded.py`, whose minimal tapes are committed under `corpus/regress/`). Round e changed the meaning of a few tape bytes (argument form of emplace / emplace_hint, content source of a range construction): ',
+       'the seeds of C03 and C12 (all but three), and eleven of C04 / C11 were run again afterwards - all still detected - and their regression tapes re-minimised under the new decoding; every committed tape passes on /repo.', '',
        '| seed | change | needs to manifest | first run | final | strengthening / first message |', '|---|---|---|---|---|---|']
 block = '\n'.join(hdr + rows)
 p = os.path.join(ROOT, 'DESIGN.md')
